@@ -146,6 +146,20 @@ func packResults(res []Value) Value {
 
 // callByKey dispatches a call to (in order) a built-in model, a contract, or inlining.
 func (x *Exec) callByKey(st *State, key string, fn *ssa.Function, sig *types.Signature, args []Value, pos string, cont func(*State, Value)) {
+	// config abstract <concrete method>=<interface method>[,...]: a call to the concrete method is seen through
+	// the interface method's contract (e.g. a *FlatIterator used as the abstract offset stream of tensor.Iterator)
+	if ab := x.c.Config["abstract"]; ab != "" {
+		for _, pair := range strings.Split(ab, ",") {
+			kv := strings.SplitN(strings.TrimSpace(pair), "=", 2)
+			if len(kv) == 2 && expandKey(kv[0]) == key {
+				if c := x.P.ContractFor(expandKey(kv[1])); c != nil {
+					x.applyContract(st, c, nil, sig, args, pos, cont)
+					return
+				}
+				x.unsupportedf("abstract: no contract for %s", kv[1])
+			}
+		}
+	}
 	if x.modelCall(st, key, sig, args, pos, cont) {
 		return
 	}
